@@ -48,7 +48,9 @@ class BaseVars(BaseFields):
                         f"Variadic field must be iterable, got '{type(value)}'."
                     )
                 # Cast to tuple to avoid accidental mutation
-                setattr(self, field.name, tuple(value))
+                # (and check the tuple: ``value`` may be a one-shot iterable)
+                value = tuple(value)
+                setattr(self, field.name, value)
                 if bad := {type(var) for var in value} - {Var}:
                     raise TypeError(
                         f"Variadic field must only consist of Vars, got: {bad}."
